@@ -418,6 +418,80 @@ def r20_3(cx):
             cx.report('R20.3', b, 'searcher-fields', ok, 'AhoCorasick { aut, kind } come from the same pair and start_kind is the builder\'s' if ok else 'AhoCorasick literal = %s' % tstr(t, 200))
 
 
+META_WRITERS = {
+    # user-observable metadata of the automata: which functions may assign the field after construction (confirmed on the
+    # reference tree). A literal of the type may only appear in its constructor and in the derived Clone.
+    ('nfa::noncontiguous::NFA', 'match_kind'): [],
+    ('nfa::noncontiguous::NFA', 'min_pattern_len'): ["nfa::noncontiguous::Compiler::<'a>::build_trie"],
+    ('nfa::noncontiguous::NFA', 'max_pattern_len'): ["nfa::noncontiguous::Compiler::<'a>::build_trie"],
+    ('nfa::noncontiguous::NFA', 'prefilter'): ["nfa::noncontiguous::Compiler::<'a>::compile"],
+    ('nfa::noncontiguous::NFA', 'byte_classes'): ["nfa::noncontiguous::Compiler::<'a>::compile"],
+    ('nfa::contiguous::NFA', 'match_kind'): [], ('nfa::contiguous::NFA', 'min_pattern_len'): [], ('nfa::contiguous::NFA', 'max_pattern_len'): [],
+    ('nfa::contiguous::NFA', 'prefilter'): [], ('nfa::contiguous::NFA', 'pattern_lens'): [], ('nfa::contiguous::NFA', 'byte_classes'): [],
+    ('dfa::DFA', 'match_kind'): [], ('dfa::DFA', 'min_pattern_len'): [], ('dfa::DFA', 'max_pattern_len'): [], ('dfa::DFA', 'prefilter'): [],
+    ('dfa::DFA', 'pattern_lens'): [], ('dfa::DFA', 'byte_classes'): [],
+    ('ahocorasick::AhoCorasick', 'kind'): [], ('ahocorasick::AhoCorasick', 'start_kind'): [], ('ahocorasick::AhoCorasick', 'aut'): [],
+}
+META_CTORS = {
+    'nfa::noncontiguous::NFA': "nfa::noncontiguous::Compiler::<'a>::new",
+    'nfa::contiguous::NFA': 'nfa::contiguous::Builder::build_from_noncontiguous',
+    'dfa::DFA': 'dfa::Builder::build_from_noncontiguous',
+    'ahocorasick::AhoCorasick': 'ahocorasick::AhoCorasickBuilder::build',
+}
+
+
+def r20_6(cx):
+    """who may write the metadata a user can observe (match kind, pattern lengths, prefilter, kind, start kind): only the
+    designated builder steps; a helper that is not part of the vocabulary counts for its vocabulary callers"""
+    from acverif.inline import vocab
+    from acverif.rl import CallGraph
+    f = cx.facts
+    cg = CallGraph(f)
+    V = vocab()
+    callers = {}
+    for p in f.bodies:
+        for blk, tg in cg.callees(p):
+            callers.setdefault(tg, set()).add(p)
+
+    def owners(p, seen=None):
+        # the vocabulary functions on whose behalf p runs
+        seen = seen or set()
+        if p in V or p in seen:
+            return {p}
+        seen.add(p)
+        out = set()
+        for c in callers.get(p, ()):
+            out |= owners(c, seen)
+        return out or {p}
+    got = {}
+    lits = {}
+    for p, b in f.bodies.items():
+        for bi, si, pl, st in b.stores():
+            prs = [x for x in pl['pr'] if isinstance(x, dict) and 'f' in x]
+            if prs and (prs[-1].get('of'), prs[-1]['f']) in META_WRITERS:
+                got.setdefault((prs[-1]['of'], prs[-1]['f']), set()).update(owners(p))
+            r = st.get('r') if si != 'term' else None
+            if r and r.get('k') == 'agg' and r.get('adt') in META_CTORS:
+                lits.setdefault(r['adt'], set()).update(owners(p))
+    for key, allowed in sorted(META_WRITERS.items()):
+        extra = sorted(got.get(key, set()) - set(allowed))
+        cx.report('R20.6', '%s.%s' % key, 'writers', not extra, 'assigned only by %s' % (allowed or 'its constructor') if not extra else
+                  'also assigned in %s (metadata reported to the user can drift from what the automaton was built for)' % extra)
+    for adt, ctor in sorted(META_CTORS.items()):
+        ls = {x for x in lits.get(adt, set()) if not re.search(r' as core::clone::Clone>::clone$', x)}
+        ok = ls == {ctor}
+        cx.report('R20.6', adt, 'constructed-in', ok, 'built only in %s (and its derived Clone)' % ctor if ok else 'literals of %s in %s' % (adt, sorted(ls)))
+    # the noncontiguous NFA's match kind is the builder's
+    b = cx.body(META_CTORS['nfa::noncontiguous::NFA'])
+    okm = False
+    for bi, si, pl, st in b.stores():
+        r = st.get('r') if si != 'term' else None
+        if r and r.get('k') == 'agg' and r.get('adt') == 'nfa::noncontiguous::NFA':
+            t = expand_vars(b, b.rvalue_term(r, 0, bi))
+            okm = tstr(strip_convs(t[3].get('match_kind'))) == 'builder.match_kind'
+    cx.report('R20.6', b, 'match-kind-source', okm, 'the NFA\'s match kind is the builder\'s' if okm else 'the NFA\'s match kind is not builder.match_kind')
+
+
 SETTERS = {
     # setter -> (inner builders that must receive the same option through the same-named setter, fields of self that must store it)
     'ahocorasick::AhoCorasickBuilder::ascii_case_insensitive': (['self.nfa_noncontiguous', 'self.nfa_contiguous', 'self.dfa'], []),
